@@ -13,6 +13,9 @@ package main
 //       (W/R = write/read lock on the whole world), prog = comma list of r<a>
 //       (read balance) / w<a> (write a value computed from everything read so
 //       far) ('-' = none)
+// l/d   like g/f, but the virtual state of a transaction is created lazily (GetFuture when the
+//       transaction is first scheduled / dispatched, after earlier ones may have committed),
+//       as the dispatcher of transition_pe.go does; g/f create all of them up front
 // g     the harness chooses the interleaving: every transaction runs in its own
 //       goroutine on its own virtual state created by the real
 //       NewWorldVirtualState/GetFuture chain; at each point the enabled actions
@@ -168,6 +171,20 @@ func c09Perms(n int) [][]int {
 	return res
 }
 
+// c09Mode picks up-front (g/f) or lazy (l/d) creation of the virtual states
+func c09Mode(g *Gen, free bool) string {
+	lazy := g.Intn(2) == 0
+	switch {
+	case free && lazy:
+		return "d"
+	case free:
+		return "f"
+	case lazy:
+		return "l"
+	}
+	return "g"
+}
+
 func c09Gen(g *Gen) {
 	emitted := 0
 	for emitted < g.N {
@@ -228,27 +245,28 @@ func c09Gen(g *Gen) {
 				for i, v := range p {
 					ss[i] = strconv.Itoa(v)
 				}
-				g.Emit("blk g %s p %s", head, strings.Join(ss, " "))
+				g.Emit("blk %s %s p %s", c09Mode(g, false), head, strings.Join(ss, " "))
 			} else {
 				var sb strings.Builder
 				for i := 0; i < 7*n+4; i++ {
 					fmt.Fprintf(&sb, " %d", g.Intn(12))
 				}
-				g.Emit("blk g %s s%s", head, sb.String())
+				g.Emit("blk %s %s s%s", c09Mode(g, false), head, sb.String())
 			}
 			emitted++
 		case n <= 4 && g.Intn(6) == 0:
 			// all priority permutations of this block
+			pm := c09Mode(g, false)
 			for _, p := range c09Perms(n) {
 				ss := make([]string, len(p))
 				for i, v := range p {
 					ss[i] = strconv.Itoa(v)
 				}
-				g.Emit("blk g %s p %s", head, strings.Join(ss, " "))
+				g.Emit("blk %s %s p %s", pm, head, strings.Join(ss, " "))
 				emitted++
 			}
 		case g.Intn(4) == 0:
-			g.Emit("blk f %s s %d", head, g.Intn(1000))
+			g.Emit("blk %s %s s %d", c09Mode(g, true), head, g.Intn(1000))
 			emitted++
 		case g.Intn(3) == 0 && n <= 8:
 			p := g.R.Perm(n)
@@ -256,14 +274,14 @@ func c09Gen(g *Gen) {
 			for i, v := range p {
 				ss[i] = strconv.Itoa(v)
 			}
-			g.Emit("blk g %s p %s", head, strings.Join(ss, " "))
+			g.Emit("blk %s %s p %s", c09Mode(g, false), head, strings.Join(ss, " "))
 			emitted++
 		default:
 			var sb strings.Builder
 			for i := 0; i < 7*n+4; i++ {
 				fmt.Fprintf(&sb, " %d", g.Intn(12))
 			}
-			g.Emit("blk g %s s%s", head, sb.String())
+			g.Emit("blk %s %s s%s", c09Mode(g, false), head, sb.String())
 			emitted++
 		}
 	}
@@ -276,7 +294,7 @@ func c09Parse(toks []string) (mode string, nacc int, txs []c09Tx, kind string, s
 		return
 	}
 	mode = toks[1]
-	if mode != "g" && mode != "f" {
+	if mode != "g" && mode != "f" && mode != "l" && mode != "d" {
 		return
 	}
 	nacc, e1 := strconv.Atoi(toks[2])
@@ -404,6 +422,8 @@ type c09Sys struct {
 	depIdx []map[int]int // account -> index of the transaction depended on (-1 none)
 	acc    []int
 	obs    [][]string
+	idx    map[state.WorldVirtualState]int
+	created int
 }
 
 func c09Init(ws state.WorldState, nacc int) {
@@ -431,54 +451,139 @@ func c09DoStep(get func(id []byte) state.AccountState, i int, st c09Step, acc *i
 }
 
 func c09Build(nacc int, txs []c09Tx) *c09Sys {
+	n := len(txs)
 	s := &c09Sys{nacc: nacc, txs: txs}
 	s.ws = state.NewWorldState(db.NewMapDB(), nil, nil, nil, nil)
 	c09Init(s.ws, nacc)
-	idx := map[state.WorldVirtualState]int{}
-	for i, tx := range txs {
-		var lq []state.LockRequest
-		for _, r := range tx.reqs {
-			l := state.AccountReadLock
-			if r.write {
-				l = state.AccountWriteLock
-			}
-			id := state.WorldIDStr
-			if !r.world {
-				id = string(c09ID(r.acct))
-			}
-			lq = append(lq, state.LockRequest{ID: id, Lock: l})
-		}
-		var w state.WorldVirtualState
-		if i == 0 {
-			w = state.NewWorldVirtualState(s.ws, lq)
-		} else {
-			w = s.wvs[i-1].GetFuture(lq)
-		}
-		s.wvs = append(s.wvs, w)
-		idx[w] = i
-		wl, locks, _ := state.VerifC09Inspect(w)
-		s.wl = append(s.wl, wl)
-		lm := map[int]state.VerifC09Lock{}
-		dm := map[int]int{}
-		for _, l := range locks {
-			a := -1
-			for k := 0; k < nacc; k++ {
-				if string(c09ID(k)) == l.ID {
-					a = k
-				}
-			}
-			lm[a] = l
-			dm[a] = -1
-			if l.Depend != nil {
-				dm[a] = idx[l.Depend]
-			}
-		}
-		s.locks = append(s.locks, lm)
-		s.depIdx = append(s.depIdx, dm)
-	}
-	s.acc = make([]int, len(txs))
-	s.obs = make([][]string, len(txs))
+	s.idx = map[state.WorldVirtualState]int{}
+	s.wvs = make([]state.WorldVirtualState, n)
+	s.wl = make([]int, n)
+	s.locks = make([]map[int]state.VerifC09Lock, n)
+	s.depIdx = make([]map[int]int, n)
+	s.acc = make([]int, n)
+	s.obs = make([][]string, n)
 	return s
+}
+
+// create makes the virtual state of transaction i (the previous ones exist) exactly like the
+// dispatcher: NewWorldVirtualState for the first, GetFuture on the previous one otherwise, and
+// reads the lock bookkeeping it got through the hook.
+func (s *c09Sys) create(i int, o *Oracle) {
+	tx := s.txs[i]
+	var lq []state.LockRequest
+	for _, r := range tx.reqs {
+		l := state.AccountReadLock
+		if r.write {
+			l = state.AccountWriteLock
+		}
+		id := state.WorldIDStr
+		if !r.world {
+			id = string(c09ID(r.acct))
+		}
+		lq = append(lq, state.LockRequest{ID: id, Lock: l})
+	}
+	var w state.WorldVirtualState
+	if i == 0 {
+		w = state.NewWorldVirtualState(s.ws, lq)
+	} else {
+		w = s.wvs[i-1].GetFuture(lq)
+	}
+	s.idx[w] = i
+	wl, locks, _ := state.VerifC09Inspect(w)
+	lm := map[int]state.VerifC09Lock{}
+	dm := map[int]int{}
+	for _, l := range locks {
+		a := -1
+		for k := 0; k < s.nacc; k++ {
+			if string(c09ID(k)) == l.ID {
+				a = k
+			}
+		}
+		lm[a] = l
+		dm[a] = -1
+		if l.Depend != nil {
+			dm[a] = s.idx[l.Depend]
+		}
+	}
+	s.wl[i], s.locks[i], s.depIdx[i] = wl, lm, dm
+	s.wvs[i] = w
+	s.created = i + 1
+
+	// oracle 1: dependency = last earlier transaction that may write the account
+	for a, d := range dm {
+		want := c09LastWriter(s.txs, i, a)
+		o.Check(d == want, "depend-not-last-writer", "tx %d account %d: real dependency %d, last earlier writer %d (locks %v)", i, a, d, want, tx.reqs)
+		if want >= 0 {
+			o.Count("dep-some")
+		} else {
+			o.Count("dep-none")
+		}
+	}
+	if wl == state.AccountWriteLock {
+		o.Count("world-write-tx")
+	}
+	for a, l := range lm {
+		touched := false
+		for _, st := range tx.prog {
+			touched = touched || st.acct == a
+		}
+		if l.Lock == state.AccountWriteLock && !touched && dm[a] >= 0 {
+			o.Count("untouched-write-lock-with-dependency")
+		}
+	}
+}
+
+func (s *c09Sys) ensure(i int, o *Oracle) {
+	for s.created <= i {
+		s.create(s.created, o)
+	}
+}
+
+func c09LastWriter(txs []c09Tx, i, a int) int {
+	want := -1
+	for j := 0; j < i; j++ {
+		if c09Access(txs[j], a) == 2 {
+			want = j
+		}
+	}
+	return want
+}
+
+type c09LI struct{ lock, dep int }
+
+// view of the lock bookkeeping of transaction i: what the real virtual state holds once it
+// exists; before that (lazy creation) what the request lists say it will hold, which only
+// decides when the harness asks for the creation.
+func (s *c09Sys) view(i int) (int, map[int]c09LI) {
+	m := map[int]c09LI{}
+	if i < s.created {
+		for a, l := range s.locks[i] {
+			m[a] = c09LI{l.Lock, s.depIdx[i][a]}
+		}
+		return s.wl[i], m
+	}
+	wl := 0
+	for _, r := range s.txs[i].reqs {
+		if r.world && r.write {
+			wl = 2
+		}
+	}
+	if wl == 2 {
+		return wl, m
+	}
+	for _, r := range s.txs[i].reqs {
+		if r.world {
+			continue
+		}
+		l := 1
+		if r.write {
+			l = 2
+		}
+		if cur, ok := m[r.acct]; !ok || cur.lock < l {
+			m[r.acct] = c09LI{l, c09LastWriter(s.txs, i, r.acct)}
+		}
+	}
+	return wl, m
 }
 
 func (s *c09Sys) depTable() string {
@@ -591,34 +696,9 @@ func (r *c09Runner) Step(toks []string, o *Oracle) string {
 	s := c09Build(nacc, txs)
 	o.Count("mode-" + mode + "-" + kind)
 
-	// oracle 1: dependency = last earlier transaction that may write the account
-	for i, tx := range txs {
-		for a, d := range s.depIdx[i] {
-			want := -1
-			for j := 0; j < i; j++ {
-				if c09Access(txs[j], a) == 2 {
-					want = j
-				}
-			}
-			o.Check(d == want, "depend-not-last-writer", "tx %d account %d: real dependency %d, last earlier writer %d (locks %v)", i, a, d, want, tx.reqs)
-			if want >= 0 {
-				o.Count("dep-some")
-			} else {
-				o.Count("dep-none")
-			}
-		}
-		if s.wl[i] == state.AccountWriteLock {
-			o.Count("world-write-tx")
-		}
-		for a, l := range s.locks[i] {
-			touched := false
-			for _, st := range tx.prog {
-				touched = touched || st.acct == a
-			}
-			if l.Lock == state.AccountWriteLock && !touched && s.depIdx[i][a] >= 0 {
-				o.Count("untouched-write-lock-with-dependency")
-			}
-		}
+	lazy := mode == "l" || mode == "d"
+	if !lazy {
+		s.ensure(n-1, o)
 	}
 
 	type cmd struct{ commit bool }
@@ -639,8 +719,7 @@ func (r *c09Runner) Step(toks []string, o *Oracle) string {
 		}
 		return true
 	}
-	depOK := func(i, a int) bool {
-		d := s.depIdx[i][a]
+	depOK := func(i, a, d int) bool {
 		// (the harness's own record of the Commits it ordered: asking the virtual state would
 		// need its mutex, which a pending blocked action of that transaction holds)
 		return d < 0 || resolved[i][a] || committed[d]
@@ -649,25 +728,26 @@ func (r *c09Runner) Step(toks []string, o *Oracle) string {
 		if committed[i] {
 			return false
 		}
+		wl, lm := s.view(i)
 		if pc[i] < len(txs[i].prog) {
 			a := txs[i].prog[pc[i]].acct
-			if _, ok := s.locks[i][a]; ok {
-				return depOK(i, a)
+			if li, ok := lm[a]; ok {
+				return depOK(i, a, li.dep)
 			}
-			if s.wl[i] != state.AccountNoLock {
+			if wl != state.AccountNoLock {
 				return allBefore(i)
 			}
 			return true
 		}
-		for a, l := range s.locks[i] {
-			if l.Lock == state.AccountWriteLock && !depOK(i, a) {
+		for a, li := range lm {
+			if li.lock == state.AccountWriteLock && !depOK(i, a, li.dep) {
 				return false
 			}
 		}
 		return true
 	}
 	result := "ok"
-	if mode == "g" {
+	if mode == "g" || mode == "l" {
 		for i := 0; i < n; i++ {
 			go func(i int) {
 				for c := range cmds[i] {
@@ -719,15 +799,33 @@ func (r *c09Runner) Step(toks []string, o *Oracle) string {
 			// pending and is only accounted when the schedule picks it. If the property holds
 			// this is invisible: the blocked action runs as soon as its dependency commits, on
 			// accounts nobody else may touch before this transaction commits.
+			if pick >= s.created {
+				o.Count("lazy-future-creation")
+				for j := 0; j < pick; j++ {
+					if committed[j] {
+						o.Count("future-created-after-a-commit")
+						break
+					}
+				}
+			}
+			created := make(chan struct{})
+			go func() { s.ensure(pick, o); close(created) }()
+			select {
+			case <-created:
+			case <-time.After(10 * time.Second):
+				return "desync-create"
+			}
 			anyPending := false
 			for _, pd := range pending {
 				anyPending = anyPending || pd
 			}
 			// (one pending action at a time: a pending Commit may already have happened for
 			// real, which would unblock a second probed transaction)
-			if kind == "s" && tokNow%5 == 0 && !anyPending {
+			// (not with lazy creation: a pending transaction sleeps holding its own mutex, and the
+			// harness must not depend on GetFuture never looking at an existing virtual state)
+			if kind == "s" && tokNow%5 == 0 && !anyPending && !lazy {
 				for q := n - 1; q >= 0; q-- {
-					if q == pick || committed[q] || pending[q] || enabled(q) {
+					if q >= s.created || q == pick || committed[q] || pending[q] || enabled(q) {
 						continue
 					}
 					if pc[q] < len(txs[q].prog) {
@@ -824,11 +922,28 @@ func (r *c09Runner) Step(toks []string, o *Oracle) string {
 				s.wvs[i].Commit()
 			}(i)
 		}
-		for _, i := range order {
-			launch(i)
-		}
-		for i := 0; i < n; i++ {
-			launch(i)
+		if mode == "d" {
+			// like the dispatcher of transition_pe.go: the future of transaction i is created
+			// when i is dispatched, while earlier transactions run and commit
+			y := uint32(seed*7919 + 13)
+			for i := 0; i < n; i++ {
+				s.create(i, o)
+				launch(i)
+				y = y*1664525 + 1013904223
+				switch (y >> 16) % 3 {
+				case 0:
+					runtime.Gosched()
+				case 1:
+					time.Sleep(time.Duration((y>>20)%400) * time.Microsecond)
+				}
+			}
+		} else {
+			for _, i := range order {
+				launch(i)
+			}
+			for i := 0; i < n; i++ {
+				launch(i)
+			}
 		}
 		fin := make(chan struct{})
 		go func() { wg.Wait(); close(fin) }()
